@@ -1024,6 +1024,8 @@ class Interp:
     def _contains(self, cont, item):
         if isinstance(item, Unknown) and isinstance(cont, dict) and item in cont:
             return True
+        if isinstance(item, Unknown) and isinstance(cont, (list, tuple, set, frozenset)) and any(isinstance(x, Unknown) and x == item for x in cont):
+            return True
         if isinstance(cont, Unknown) or (isinstance(item, Unknown) and not isinstance(cont, (str,))):
             sc = cont.sym if isinstance(cont, Unknown) else repr(cont)[:40]
             si = item.sym if isinstance(item, Unknown) else repr(item)
